@@ -32,7 +32,10 @@ Definition M := Eval vm_compute in mismatches agrees 0 cases.
 Print M.
 """
 
-STRAY = ["#", "!", "%", "A", "$", "@", "@lef", "\"", "\"abc", "/", "/ab", "/* open", "$a", "é"]
+STRAY = ["#", "!", "%", "A", "$", "@", "@lef", "\"", "\"abc", "/", "/ab", "/* open", "$a", "é",
+         # degenerate forms of well-formed elements: the empty literal, a literal right after one, quotes of the other kind,
+         # a lone backslash, an escape outside a literal, a doubled sigil
+         "\"\"", "\"\"x\"", "\"a\"\"b\"", "'a'", "\\", "\\\"", "@@left", "$$ID", "/**/ /", "a\"b"]
 
 
 def check(tier):
@@ -143,7 +146,7 @@ def check(tier):
     for sp, _ in valid[: (6 if tier == "quick" else 20)]:
         positions = [m.start() for m in re.finditer(r"\s+", sp)] + [len(sp)]
         for pos in positions:
-            for stray in (STRAY if tier != "quick" else rng.sample(STRAY, 5)):
+            for stray in (STRAY if tier != "quick" else rng.sample(STRAY, 7)):
                 text = sp[:pos] + " " + stray + " " + sp[pos:]
                 ntext += 1
                 r = hook.call({"op": "parse_trace", "mode": "parse", "text": text})
